@@ -1223,15 +1223,16 @@ def _v_ungroup(env, t, step):
 def _v_summarize(env, t, step):
     if not step["items"] and not t.group:
         raise RefReject("ValueError", "summarize without columns")
+    name_of = {c: n for n, c in t.visible}
+    for g in t.group:
+        if g not in name_of:
+            # the grouping columns are part of the result, so they must still be selected (ValueError since F55)
+            raise RefReject("ValueError", "hidden grouping column at summarize")
     groups = partition_rows(t, t.group) if t.group else [list(range(t.n))]
     if t.group and t.n == 0:
         groups = []
     ev = Evaluator(env, t, "summarize", groups)
     vecs = [ev.group_vals(e) for _, e in step["items"]]
-    name_of = {c: n for n, c in t.visible}
-    for g in t.group:
-        if g not in name_of:
-            raise OutOfDomain("hidden grouping column at summarize")
     new_names = {n for n, _ in step["items"]}
     res = RT()
     res.n = len(groups)
@@ -1264,6 +1265,8 @@ def _v_alias(env, t, step):
         t.scope = set(m.values())
         t.group = [m[c] for c in t.group]
         t.idcols = [m[c] for c in t.idcols]
+        t.agg_cols = {m[c] for c in t.agg_cols if c in m}  # bookkeeping for K03 / K05: alias alone is no subquery
+        t.const_cols = {m[c] for c in t.const_cols if c in m}
         t.nodes = frozenset([step["out"]])
     # on SQL an ORDER BY below a materialised subquery is not guaranteed to survive
     t.n_sql = 0
@@ -1272,12 +1275,12 @@ def _v_alias(env, t, step):
 def _v_collect(env, t, step):
     vis = {c for _, c in t.visible}
     if step.get("keep", True):
+        for g in t.group:
+            if g not in vis:
+                raise RefReject("ValueError", "hidden grouping column at collect")
         t.scope = set(vis)
         t.data = {c: v for c, v in t.data.items() if c in vis}
         t.idcols = [c for c in t.idcols if c in vis]
-        for g in t.group:
-            if g not in vis:
-                raise OutOfDomain("hidden grouping column at collect")
     else:
         m = {c: env.new_id() for c in vis}
         t.data = {m[c]: v for c, v in t.data.items() if c in m}
